@@ -341,6 +341,12 @@ func (e *Eng) wf(t types.Type, v Val) T {
 		return tAnd(app("bvsle", i64(0), s.L), app("bvsle", s.L, s.C), app("bvsle", s.C, i64(maxLen)),
 			app("bvsle", i64(0), s.O), app("bvsle", s.O, i64(maxLen)),
 			tImp(tEq(s.B, null), tEq(s.C, i64(0))))
+	case *types.Pointer:
+		if _, ok := under(x.Elem()).(*types.Struct); ok {
+			if p, ok := v.(*PtrV); ok && p.Kind == pStruct && p.Ref != null {
+				return tOr(tEq(p.Ref, null), tEq(e.rtypeOf(p.Ref), e.structTag(x.Elem())))
+			}
+		}
 	case *types.Interface:
 		iv := v.(*IfaceV)
 		cs := []T{tImp(tEq(iv.Ty, bvLit(32, 0)), tEq(iv.V, null))}
